@@ -374,7 +374,7 @@ func c05BFSJob(r *rep.Run, p *Prop, space string, chk func(scriptCase) []rep.Fin
 
 func c05Templates(r *rep.Run, p *Prop, chk func(scriptCase) []rep.Finding, thorough bool) {
 	var cases []scriptCase
-	redeems := [][]byte{{0x51}, {0x00}, {0x76, 0x87}, {0x6a}, {0x51, 0x6b}, {0x63, 0x51, 0x68}, {0x4c}}
+	redeems := [][]byte{{0x51}, {0x00}, {0x76, 0x87}, {0x6a}, {0x51, 0x6b}, {0x63, 0x51, 0x68}, {0x4c}, {}, {0x61}, {0x75}, {0x51, 0x51}}
 	for _, rd := range redeems {
 		h := refHash160(rd)
 		lock := append(append([]byte{0xa9, 0x14}, h...), 0x87)
